@@ -13,6 +13,7 @@ import Bolt.Driver.Flock
 import Bolt.Driver.Node
 import Bolt.Driver.BTree
 import Bolt.Driver.Bkt
+import Bolt.Driver.Surgery
 open Bolt.Driver
 
 def main (args : List String) : IO UInt32 := do
@@ -30,6 +31,8 @@ def main (args : List String) : IO UInt32 := do
   | ["btree"] => cmdBTree; return 0
   | ["bkt"] => cmdBkt; return 0
   | ["compactmodel", path, os, limit] => cmdCompactModel path (parseNat os) (parseNat limit); return 0
+  | ["surgery", cmd, inp, out, os] => cmdSurgery cmd inp out (parseNat os); return 0
+  | ["compactcalls", path, os, limit] => cmdCompactCalls path (parseNat os) (parseNat limit); return 0
   | ["reencode", path, os] => cmdReencode path (parseNat os); return 0
   | ["checkmodel", path, os, kind] => cmdCheckModel path (parseNat os) kind; return 0
   | ["api-verbose"] => cmdApi true; return 0
